@@ -1,4 +1,5 @@
 import Martian.Lemmas.H2Relay
+import Martian.Generated.H2Relay
 /-!
 C09 — HTTP/2 relay obeys receiver windows, returns exact credit, never strands data.
 
@@ -263,5 +264,19 @@ def sample : List RIn :=
 example : OkRun {} sample := okRunB_sound _ _ (by decide)
 
 example : ((run {} sample).emitted.map QFrame.size, ((run {} sample).ob 1).q.length) = ([1], 1) := by decide
+
+/-! ### Facts regenerated from `/repo` on every run (`go/cmd/vextract/facts_c08.go`) -/
+
+/-- Initial windows and frame size of `h2/relay.go` are the model's. -/
+theorem facts_flow_constants :
+    Generated.H2Relay.initialMaxFrameSize = ({} : Relay).maxFrame ∧
+    Generated.H2Relay.defaultInitialWindowSize = ({} : Relay).initWin ∧
+    (Generated.H2Relay.defaultInitialWindowSize : Int) = ({} : Relay).connWin := by
+  decide
+
+/-- `sendWindowUpdates` computes the credit from the frame header length (F09 fix), which is what
+`dispatch` passes as `flowLen`. -/
+theorem facts_credit_uses_frame_header_length : Generated.H2Relay.creditUsesFrameHeaderLength = true := by
+  decide
 
 end Martian.Props.C09
